@@ -883,9 +883,11 @@ struct Runner {
 
 	struct Pending { std::string id, cls, data; };
 
+	static bool trace() { static int t = getenv("C12_TRACE") ? 1 : 0; return t != 0; }
 	void flush(const Target &T, std::vector<Pending> &P)
 	{
 		size_t done = 0;
+		if (trace()) fprintf(stderr, "[%.1f] flush %s/%s: %zu cases from %s\n", drv::now() - R.t0, T.name.c_str(), T.seedname.c_str(), P.size(), P.empty() ? "" : P[0].id.c_str());
 		while (done < P.size())
 		{
 			if (P.size() - done == 1 || batch_cases <= 1)
@@ -920,6 +922,7 @@ struct Runner {
 			{
 				// the child died while running P[done]: decide and attribute by running that case alone
 				const Pending &c = P[done];
+				if (trace()) fprintf(stderr, "[%.1f] child ended (status %d) at %s; isolating\n", drv::now() - R.t0, st, c.id.c_str());
 				Res r = F.run([&]() { return T.run(c.data); });
 				if (!r.violation() && Forker::is_timeout(st))
 					r.slow = true;      // the per-case watchdog fired inside the batch, alone the case terminates: slow, not a violation
